@@ -64,22 +64,36 @@ theorem tieA_prepare_buffer_header {β : Type} [Gen.SessionTx.TxBufOps β] (code
 accepted downlink advances `fcnt_up` by exactly one unless it is `0xFFFF_FFFF`, in which case
 `SessionExpired` is reported and the counter stays; no other path of `handle_rx` touches it except the
 oversized-frame path through `rx2_complete` (`C06.handleRx_fcnt` is about that model function).  See
-`C05.tieA_handle_rx_accept`.  Proved in `Props/TieA/HandleRx.lean`.  Builder S: stated for the regenerated
+`C05.tieA_handle_rx_accept`.  Builder X: for downlink-typed frames (`hup`); an uplink-typed frame leaves `fcnt_up` and
+everything else untouched (`tieA_handle_rx_uplink_typed`).  Proved in `Props/TieA/HandleRx.lean`.  Builder S: stated for the regenerated
 `handle_downlink_macs` (`TieA.Rx.Full.genOps`) on every command stream, no simulation hypothesis
 (`Props/TieA/HandleRxFull.lean`). -/
 theorem tieA_handle_rx_accept
     (D : Int) (gs : Gen.SessionRx.Session) (rs : RegionState) (g : Gen.SessionRx.Configuration)
     (rx : Gen.SessionRx.RadioBuffer) (dl : List Gen.SessionRx.Downlink) (maxp snr : Int) (ign : Bool)
     (e : Gen.SessionRx.EncryptedDataPayload)
-    (hparse : rx.as_mut_for_read.parse = some e)
+    (hparse : rx.as_mut_for_read.parse = some e) (hup : e.is_uplink = false)
     (hw : TieA.Rx.SessWF gs) (hmax : 0 ≤ maxp ∧ maxp ≤ 255) (hwire : 0 ≤ e.fhdr.fcnt)
     (hdec : ∀ f, Gen.SessionRx.next_fcnt_down gs.fcnt_down e.fhdr.fcnt = some f → e.validate_mic (TieA.Rx.nwkOf gs) f = true →
       ∃ d, rx.as_mut_for_read.decrypt_in_place (some (TieA.Rx.nwkOf gs)) (some (TieA.Rx.appOf gs)) f = some d ∧ TieA.Rx.DecWF TieA.Rx.Full.Stream d) :
     (@Gen.SessionRx.Session.handle_rx RegionState TieA.Rx.Full.genOps D gs rs g rx dl maxp snr ign).bind
         (fun out => (TieA.Rx.respOf out.1).map (fun r => (r, TieA.Rx.sessOf out.2.1, out.2.2.1, TieA.Rx.cfgOf out.2.2.2.1, out.2.2.2.2.2.map TieA.Rx.dlOf)))
       = (sessionHandleRx (TieA.Rx.sessOf gs) (TieA.Rx.cfgOf g) rs (TieA.Rx.dataOf gs e (TieA.Rx.decOf gs rx e)) maxp.toNat snr ign).toOption.map (TieA.Rx.expect dl D) :=
-  TieA.Rx.Full.handle_rx_full D gs rs g rx dl maxp snr ign e hparse hw hmax hwire hdec
+  TieA.Rx.Full.handle_rx_full D gs rs g rx dl maxp snr ign e hparse hup hw hmax hwire hdec
 
+/-- builder X — a buffer the parser accepts whose MType is an UPLINK type (`is_uplink()`; the device's own uplink
+echoed back, another device's uplink, any frame MIC'd with Dir = 0 under the session key): `NoUpdate`, every output is
+the input — whatever its length, wire counter and MIC, in a Class A window (no `rx2_complete`) and outside.  For the
+model such a buffer is NOT a data-frame view (`RxView.garbage`, the reference codec's `g`), exactly like a buffer the
+parser rejects: `sessionHandleRx` is only ever applied to downlink-typed frames (`hup` of `tieA_handle_rx_accept`). -/
+theorem tieA_handle_rx_uplink_typed [Gen.SessionRx.MacOps RegionState]
+    (D : Int) (gs : Gen.SessionRx.Session) (rs : RegionState) (g : Gen.SessionRx.Configuration)
+    (rx : Gen.SessionRx.RadioBuffer) (dl : List Gen.SessionRx.Downlink) (maxp snr : Int) (ign : Bool)
+    (e : Gen.SessionRx.EncryptedDataPayload)
+    (hparse : rx.as_mut_for_read.parse = some e) (hup : e.is_uplink = true) :
+    Gen.SessionRx.Session.handle_rx D gs rs g rx dl maxp snr ign = some (.NoUpdate, gs, rs, g, rx, dl) :=
+  TieA.Rx.handle_rx_uplink_typed D gs rs g rx dl maxp snr ign e hparse hup
 
 #print axioms tieA_handle_rx_accept
+#print axioms tieA_handle_rx_uplink_typed
 end C06
